@@ -82,73 +82,102 @@ def downDuring (flags : List (Nat × Bool × Nat)) (ent lo hi : Nat) : Bool :=
   let atLo := ((mine.filter (·.2.2 < lo)).getLast?.map (·.2.1)).getD false
   atLo || mine.any (fun f => f.2.1 && lo ≤ f.2.2 && f.2.2 < hi)
 
+/-! The judge in named pieces (so that theorems can speak about each clause). -/
+
+def tagged (t : Trace) : List Deliv := t.delivs.filter (·.tag != 0)
+def createdOf (t : Trace) (tag : Nat) : Option Created := t.created.find? (·.tag == tag)
+def cancelledBefore (t : Trace) (tag pos : Nat) : Bool := t.cancels.any (fun c => c.1 == tag && c.2 < pos)
+def live (t : Trace) (c : Created) (pos : Nat) : Bool := c.clock ≤ c.time && !cancelledBefore t c.tag pos
+
+/-- 1. the clock never moves backwards -/
+def clockMonotone (t : Trace) : Bool := adjOk (fun a b => a.clock ≤ b.clock) t.delivs
+/-- 2. clock at delivery = the event's timestamp (as the handler saw it / as it was created) -/
+def clockNotEventTime (t : Trace) : Bool :=
+  t.delivs.any (fun d => match d.evtime with | some e => e != d.clock | none => false)
+def deliveredAtWrongTime (t : Trace) : Bool :=
+  (tagged t).any (fun d => match createdOf t d.tag with | some c => c.time != d.clock | none => false)
+/-- 3. at most once -/
+def atMostOnce (t : Trace) : Bool := pairwiseOk (fun a b => a.tag != b.tag) (tagged t)
+/-- 4. only created, non-cancelled, non-stale events are delivered -/
+def deliveredUnknown (t : Trace) : Bool := (tagged t).any (fun d => (createdOf t d.tag).isNone)
+def cancelledDelivered (t : Trace) : Bool := (tagged t).any (fun d => cancelledBefore t d.tag d.pos)
+def staleDelivered (t : Trace) : Bool :=
+  (tagged t).any (fun d => match createdOf t d.tag with | some c => c.time < c.clock | none => false)
+/-- 5. time order with FIFO ties by creation -/
+def tieOrder (t : Trace) : Bool :=
+  adjOk (fun a b => a.clock < b.clock || (a.clock == b.clock && a.tag < b.tag)) (tagged t)
+
+/-- clauses 1–5: what was delivered, when, in which order -/
+def judgeOrder (t : Trace) : Option String :=
+  if !clockMonotone t then some "engine/clock-moved-backwards"
+  else if clockNotEventTime t then some "engine/clock-not-event-time"
+  else if deliveredAtWrongTime t then some "engine/delivered-at-wrong-time"
+  else if !atMostOnce t then some "engine/delivered-twice"
+  else if deliveredUnknown t then some "engine/delivered-unknown-event"
+  else if cancelledDelivered t then some "engine/cancelled-delivered"
+  else if staleDelivered t then some "engine/stale-delivered"
+  else if !tieOrder t then some "engine/tie-order-not-creation-order"
+  else none
+
+def delivered (t : Trace) (tag : Nat) : Bool := (tagged t).any (·.tag == tag)
+
+/-- the stretch of the trace in which the event falls due: after the last delivery that precedes it
+    in (time, creation) order — and after its own creation — and before the first that follows it.
+    An event whose target is up during that whole stretch (never crashed, or restored before) is
+    live when it falls due, whatever the target's state was when the event was scheduled. -/
+def mayBeDown (t : Trace) (c : Created) : Bool :=
+  let before := (tagged t).filter fun d => d.clock < c.time || (d.clock == c.time && d.tag < c.tag)
+  let after := (tagged t).find? fun d => c.time < d.clock || (d.clock == c.time && c.tag < d.tag)
+  let lo := max ((before.getLast?.map (·.pos)).getD 0) c.pos
+  let hi := (after.map (·.pos)).getD t.len
+  downDuring t.flags c.target lo hi
+
+/-- 6. a created event that should have been delivered by the end of the run and was not -/
+def lostEvent (t : Trace) : Option Created :=
+  t.created.find? fun c =>
+    !delivered t c.tag && live t c 1000000000 && !mayBeDown t c &&
+      (match t.endT with
+       | some e => c.time ≤ e
+       | none => !c.daemon || c.time < t.endClock)
+
+def undelivered (t : Trace) (c : Created) (d : Deliv) : Bool :=
+  c.pos < d.pos && !((tagged t).any fun d' => d'.tag == c.tag && d'.pos < d.pos)
+def notYet (t : Trace) (c : Created) (d : Deliv) : Bool := undelivered t c d && !mayBeDown t c
+def laterFutureResume (t : Trace) (d : Deliv) : Bool :=
+  t.delivs.any fun d' => d'.tag == 0 && d'.pos ≥ d.pos && d'.clock == d.clock
+/-- some non-daemon event is in the heap when `d` is delivered (possibly a cancelled one awaiting its lazy deletion) -/
+def primaryInHeap (t : Trace) (d : Deliv) : Bool :=
+  t.created.any fun c =>
+    !c.daemon && undelivered t c d && c.clock ≤ c.time && (live t c d.pos || d.clock ≤ c.time)
+/-- some live non-daemon event is pending when `d` is delivered -/
+def primaryPending (t : Trace) (d : Deliv) : Bool :=
+  t.created.any fun c => !c.daemon && notYet t c d && live t c d.pos
+
+/-- 7. auto-termination: every delivery happens while some live non-daemon event is pending.
+    Two grades: nothing non-daemon is left in the heap at all, not even a cancelled event
+    waiting for its lazy deletion (`…/ran-with-no-primary-in-heap`), or only cancelled ones
+    are left (`…/ran-with-no-primary-pending`, the code's lazy-deletion behaviour). -/
+def judgeAutoterm (t : Trace) : Option String :=
+  match t.delivs.find? fun d => !primaryInHeap t d && !laterFutureResume t d with
+  | some _ => some "engine/autoterm/ran-with-no-primary-in-heap"
+  | none =>
+    match t.delivs.find? fun d => !primaryPending t d && !laterFutureResume t d with
+    | some _ => some "engine/autoterm/ran-with-no-primary-pending"
+    | none => none
+
+/-- clauses 6–7: what should have been delivered, and when the run should have ended -/
+def judgeLive (t : Trace) : Option String :=
+  match lostEvent t with
+  | some c => if c.daemon then some "engine/daemon-event-skipped" else some "engine/live-event-not-delivered"
+  | none =>
+    match t.endT with
+    | some _ => none
+    | none => judgeAutoterm t
+
 def judge (t : Trace) : Option String :=
-  let ds := t.delivs
-  let tagged := ds.filter (·.tag != 0)
-  let createdOf (tag : Nat) := t.created.find? (·.tag == tag)
-  let cancelledBefore (tag pos : Nat) := t.cancels.any (fun c => c.1 == tag && c.2 < pos)
-  let live (c : Created) (pos : Nat) := c.clock ≤ c.time && !cancelledBefore c.tag pos
-  -- 1. the clock never moves backwards
-  if !adjOk (fun a b => a.clock ≤ b.clock) ds then some "engine/clock-moved-backwards"
-  -- 2. clock at delivery = the event's timestamp
-  else if ds.any (fun d => match d.evtime with | some e => e != d.clock | none => false) then
-    some "engine/clock-not-event-time"
-  else if tagged.any (fun d => match createdOf d.tag with | some c => c.time != d.clock | none => false) then
-    some "engine/delivered-at-wrong-time"
-  -- 3. at most once
-  else if !pairwiseOk (fun a b => a.tag != b.tag) tagged then some "engine/delivered-twice"
-  -- 4. only created, non-cancelled, non-stale events are delivered
-  else if tagged.any (fun d => (createdOf d.tag).isNone) then some "engine/delivered-unknown-event"
-  else if tagged.any (fun d => cancelledBefore d.tag d.pos) then some "engine/cancelled-delivered"
-  else if tagged.any (fun d => match createdOf d.tag with | some c => c.time < c.clock | none => false) then
-    some "engine/stale-delivered"
-  -- 5. time order with FIFO ties by creation
-  else if !adjOk (fun a b => a.clock < b.clock || (a.clock == b.clock && a.tag < b.tag)) tagged then
-    some "engine/tie-order-not-creation-order"
-  else
-    let delivered (tag : Nat) := tagged.any (·.tag == tag)
-    -- the stretch of the trace in which the event falls due: after the last delivery that precedes it
-    -- in (time, creation) order — and after its own creation — and before the first that follows it.
-    -- An event whose target is up during that whole stretch (never crashed, or restored before) is
-    -- live when it falls due, whatever the target's state was when the event was scheduled.
-    let mayBeDown (c : Created) : Bool :=
-      let before := tagged.filter fun d => d.clock < c.time || (d.clock == c.time && d.tag < c.tag)
-      let after := tagged.find? fun d => c.time < d.clock || (d.clock == c.time && c.tag < d.tag)
-      let lo := max ((before.getLast?.map (·.pos)).getD 0) c.pos
-      let hi := (after.map (·.pos)).getD t.len
-      downDuring t.flags c.target lo hi
-    let lost := t.created.find? fun c =>
-      !delivered c.tag && live c 1000000000 && !mayBeDown c &&
-        (match t.endT with
-         | some e => c.time ≤ e
-         | none => !c.daemon || c.time < t.endClock)
-    match lost with
-    | some c => if c.daemon then some "engine/daemon-event-skipped" else some "engine/live-event-not-delivered"
-    | none =>
-      match t.endT with
-      | some _ => none
-      | none =>
-        -- 7. auto-termination: every delivery happens while some live non-daemon event is pending.
-        -- Two grades: nothing non-daemon is left in the heap at all, not even a cancelled event
-        -- waiting for its lazy deletion (`…/ran-with-no-primary-in-heap`), or only cancelled ones
-        -- are left (`…/ran-with-no-primary-pending`, the code's lazy-deletion behaviour).
-        let undelivered (c : Created) (d : Deliv) := c.pos < d.pos &&
-              !(tagged.any fun d' => d'.tag == c.tag && d'.pos < d.pos)
-        let notYet (c : Created) (d : Deliv) := undelivered c d && !mayBeDown c
-        let laterFutureResume (d : Deliv) := ds.any fun d' => d'.tag == 0 && d'.pos ≥ d.pos && d'.clock == d.clock
-        let badHeap := ds.find? fun d =>
-          let inHeap := t.created.any fun c =>
-            !c.daemon && undelivered c d && c.clock ≤ c.time && (live c d.pos || d.clock ≤ c.time)
-          !inHeap && !laterFutureResume d
-        match badHeap with
-        | some _ => some "engine/autoterm/ran-with-no-primary-in-heap"
-        | none =>
-          let bad := ds.find? fun d =>
-            let pendingPrimary := t.created.any fun c => !c.daemon && notYet c d && live c d.pos
-            !pendingPrimary && !laterFutureResume d
-          match bad with
-          | some _ => some "engine/autoterm/ran-with-no-primary-pending"
-          | none => none
+  match judgeOrder t with
+  | some s => some s
+  | none => judgeLive t
 
 def judgeBlock (body : List String) : List String :=
   match judge (parse body) with
